@@ -204,12 +204,14 @@ func (set *SortedSet) AddOrUpdate(
 		if strings.EqualFold(policy, "xx") {
 			// Only update existing elements, do not add new elements
 			if set.Contains(m.Value) {
+				oldScore := set.members[m.Value].Score
 				set.members[m.Value] = MemberObject{
 					Value:  m.Value,
-					Score:  compareScores(set.members[m.Value].Score, m.Score, comp),
+					Score:  compareScores(oldScore, m.Score, comp),
 					Exists: true,
 				}
-				if strings.EqualFold(ch, "ch") {
+				// CH counts the members whose score actually changed.
+				if strings.EqualFold(ch, "ch") && set.members[m.Value].Score != oldScore {
 					count += 1
 				}
 			}
@@ -228,12 +230,17 @@ func (set *SortedSet) AddOrUpdate(
 			continue
 		}
 		// Policy not specified, just Set the elements and scores
-		if set.members[m.Value].Score != m.Score || !set.members[m.Value].Exists {
+		// A new member gets the given score; GT/LT only restrict updates of existing members.
+		newScore := m.Score
+		if set.members[m.Value].Exists {
+			newScore = compareScores(set.members[m.Value].Score, m.Score, comp)
+		}
+		if set.members[m.Value].Score != newScore || !set.members[m.Value].Exists {
 			count += 1
 		}
 		set.members[m.Value] = MemberObject{
 			Value:  m.Value,
-			Score:  compareScores(set.members[m.Value].Score, m.Score, comp),
+			Score:  newScore,
 			Exists: true,
 		}
 	}
